@@ -167,6 +167,151 @@ class BatchDomain(Domain):
         return state
 
 
+
+BoundCall = namedtuple("BoundCall", "obj attr")
+StarArgs = namedtuple("StarArgs", "name")
+ArgList = namedtuple("ArgList", "items star")
+ResultOf = namedtuple("ResultOf", "n")
+Truthiness = namedtuple("Truthiness", "b")
+
+
+class DispatchDomain(Domain):
+    """_run_cmd and the dispatch loops: which client, which bound method and which payload reach the safe runner,
+    and where its result goes.  Argument lists built with list(args) + insert(0, x) or passed as `x, *args` are the same."""
+
+    async_enabled = False
+    unpack_may_raise = False
+    subscript_may_raise = False
+    global_keys = ("runs", "merges")
+
+    def truth(self, v, state=None):
+        if isinstance(v, Truthiness):
+            return v.b
+        if isinstance(v, (ClientOf, BoundCall, ResultOf)) or (isinstance(v, tuple) and v and v[0] == "client-of-key"):
+            return True if not isinstance(v, ResultOf) else None
+        return super().truth(v, state)
+
+    def never_none(self, v):
+        return isinstance(v, (ClientOf, BoundCall)) or (isinstance(v, tuple) and v and v[0] == "client-of-key") or super().never_none(v)
+
+    def attr_load(self, objval, node, state):
+        if is_self_attr(node, "clients"):
+            return Opaque("self.clients")
+        if is_self_attr(node):
+            return Opaque("self." + node.attr)
+        if isinstance(objval, ClientOf) or (isinstance(objval, tuple) and objval and objval[0] == "client-of-key"):
+            if node.attr == "server":
+                return ServerOf(objval)
+            return BoundCall(objval, Const(node.attr))
+        return TOP
+
+    def subscript_load(self, objval, idxval, node, state):
+        if objval == Opaque("self.clients"):
+            return ("client-of-key", idxval), False
+        if isinstance(objval, Sym) and isinstance(node.slice, ast.Slice):
+            return ("slice-of", objval), False
+        return TOP, False
+
+    def name_store(self, name, value, state, node=None):
+        if isinstance(value, tuple) and value and value[0] == "acc+":
+            state = state.set("merges", state.get("merges", ()) + ((name, value[2]),))
+            value = ("acc", name)
+        return state.set(name, value)
+
+    def binop(self, node, l, r, state):
+        if isinstance(node.op, ast.Add) and isinstance(r, ResultOf):
+            return ("acc+", l, r)
+        return TOP
+
+    def for_next(self, node, itval, state):
+        # an inner loop (slices of a batch) is unrolled twice: enough to tell "merged per slice" from "merged once"
+        k = ("visited", getattr(node, "lineno", 0))
+        n = state.get(k, 0)
+        if n >= 2:
+            return []
+        return [(TOP, state.set(k, n + 1))]
+
+    def for_exhausted(self, node, itval, state):
+        return state if state.get(("visited", getattr(node, "lineno", 0)), 0) >= 2 else None
+
+    def call(self, node, fval, args, kwargs, state):
+        name = call_name(node)
+        if name == "self._get_client":
+            a = args[0] if args else TOP
+            return [("ok", TupleV((ClientOf(a), InnerOf(a))), state), ("ok", TupleV((NONE, InnerOf(a))), state)]
+        if name == "self._make_client_key":
+            return [("ok", ("node-name-of", args[0] if args else TOP), state)]
+        if name == "getattr" and len(args) >= 2:
+            return [("ok", BoundCall(args[0], args[1]), state)]
+        if name == "list" and args and isinstance(args[0], StarArgs):
+            return [("ok", ArgList((), args[0]), state)]
+        if isinstance(node.func, ast.Attribute) and node.func.attr == "insert" and isinstance(node.func.value, ast.Name) and isinstance(state.get(node.func.value.id, None), ArgList) and len(args) == 2 and args[0] == Const(0):
+            cur = state.get(node.func.value.id)
+            return [("ok", NONE, state.set(node.func.value.id, ArgList((args[1],) + cur.items, cur.star)))]
+        if name in ("self._safely_run_func", "self._safely_run_set_many"):
+            flat = []
+            for an, av in zip(node.args, args):
+                if isinstance(an, ast.Starred):
+                    if isinstance(av, ArgList):
+                        flat += list(av.items) + ([("STAR", av.star.name)] if av.star is not None else [])
+                    elif isinstance(av, StarArgs):
+                        flat.append(("STAR", av.name))
+                    else:
+                        flat.append(("STAR?", av if _h(av) else "?"))
+                else:
+                    flat.append(av if _h(av) else TOP)
+            runs = state.get("runs", ())
+            st = state.set("runs", runs + ((name, tuple(flat)),))
+            return [("ok", ResultOf(len(runs) + 1), st)]
+        if isinstance(node.func, ast.Attribute) and node.func.attr == "update" and isinstance(node.func.value, ast.Name) and args:
+            return [("ok", NONE, state.set("merges", state.get("merges", ()) + ((node.func.value.id, args[0]),)))]
+        return [("ok", TOP, state)]
+
+
+def _h(v):
+    try:
+        hash(v)
+        return True
+    except TypeError:
+        return False
+
+
+def run_cmd_problems(prog):
+    """Semantic check of HashClient._run_cmd: -> list of problem strings."""
+    hc = prog.cls("HashClient")
+    rc = prog.method(hc, "_run_cmd")
+    pp = rc.pos_params()
+    if len(pp) < 3 or not rc.has_varargs():
+        return ["_run_cmd no longer has the shape (cmd, key, default_val, *args, **kwargs)"]
+    cmd, key, dv = pp[0].name, pp[1].name, pp[2].name
+    va = [p.name for p in rc.params if p.kind == "vararg"][0]
+    dom = DispatchDomain(prog, rc)
+    outs = Interp(dom, rc.node, prog).run(Env({cmd: Sym("cmd"), key: Sym("key"), dv: Sym("default"), va: StarArgs(va)}))
+    problems = []
+    routed = 0
+    for s_, v, t in outs.of("ret"):
+        runs = s_.get("runs", ())
+        if not runs:
+            if v != Sym("default"):
+                problems.append("without a routed client it returns %s instead of default_val" % _d(v))
+            continue
+        routed += 1
+        if len(runs) != 1:
+            problems.append("%d calls of the safe runner on one path" % len(runs))
+            continue
+        nm, flat = runs[0]
+        want = (ClientOf(Sym("key")), BoundCall(ClientOf(Sym("key")), Sym("cmd")), Sym("default"), InnerOf(Sym("key")), ("STAR", va))
+        if nm != "self._safely_run_func" or flat != want:
+            problems.append("the safe runner is called with (%s) instead of (client routed for the key, that client's method looked up by the command name, default_val, the inner key returned by the router, *args)" % ", ".join(_d(x) for x in flat))
+        if not isinstance(v, ResultOf):
+            problems.append("the runner's result is not returned as is")
+    if outs.of("exc"):
+        problems.append("raises %s" % [e.cls for s_, e, t in outs.of("exc")])
+    if not routed:
+        problems.append("no path hands the call to the safe runner")
+    return problems
+
+
 def run(chk):
     prog = chk.prog
     hc = prog.cls("HashClient")
@@ -189,23 +334,8 @@ def run(chk):
     r1.expect(shapes == {(1, ())}, "all %d call sites of _get_client pass exactly the key" % len(gcalls), "HashClient:_get_client-call-shapes", "_get_client is called with differing arguments (%s) at different sites: single-key and multi-key operations are not routed by the same function of the key" % sorted(shapes), fn=gc, node=gcalls[0][1] if gcalls else gc.node)
     r1.floor("call sites of _get_client", len(gcalls), 3)
     rc = prog.method(hc, "_run_cmd")
-    # _run_cmd: client,key = self._get_client(key); func = getattr(client, cmd); _safely_run_func(client, func, ...)
-    okrc = False
-    kname = rc.pos_params()[1].name if len(rc.pos_params()) > 1 else None
-    asg = [n for n in walk_no_nested(rc.node) if isinstance(n, ast.Assign) and isinstance(n.value, ast.Call) and call_name(n.value) == "self._get_client"]
-    if len(asg) == 1 and isinstance(asg[0].targets[0], ast.Tuple) and len(asg[0].targets[0].elts) == 2 and all(isinstance(e, ast.Name) for e in asg[0].targets[0].elts):
-        cvar, kvar = [e.id for e in asg[0].targets[0].elts]
-        a = asg[0].value.args
-        ga = [c for c in walk_no_nested(rc.node) if isinstance(c, ast.Call) and call_name(c) == "getattr"]
-        srf = [c for c in walk_no_nested(rc.node) if isinstance(c, ast.Call) and call_name(c) == "self._safely_run_func"]
-        ins = [c for c in walk_no_nested(rc.node) if isinstance(c, ast.Call) and isinstance(c.func, ast.Attribute) and c.func.attr == "insert"]
-        okrc = (
-            len(a) == 1 and isinstance(a[0], ast.Name) and a[0].id == kname
-            and len(ga) == 1 and isinstance(ga[0].args[0], ast.Name) and ga[0].args[0].id == cvar
-            and len(srf) == 1 and isinstance(srf[0].args[0], ast.Name) and srf[0].args[0].id == cvar
-            and len(ins) == 1 and isinstance(ins[0].args[1], ast.Name) and ins[0].args[1].id == kvar
-        )
-    r1.expect(okrc, "_run_cmd routes its key parameter, looks the method up on the routed client and sends the inner key", "HashClient._run_cmd:routing", "_run_cmd does not (route the key parameter -> getattr(routed client) -> insert the inner key returned by the router)", fn=rc, node=rc.node)
+    rcp = run_cmd_problems(prog)
+    r1.expect(not rcp, "_run_cmd routes its key parameter, looks the method up on the routed client and sends the inner key", "HashClient._run_cmd:routing", "_run_cmd: %s" % "; ".join(rcp), fn=rc, node=rc.node)
     n_ops = 0
     from .rules_C16 import key_ops
 
@@ -303,66 +433,55 @@ def run(chk):
         if outs.of("brk") or outs.of("ret"):
             r3.fail("HashClient.%s:builder-leaves-early" % mname, "the builder loop can stop before all keys were batched", fn=f, node=build)
         r3.floor("%s builder paths with a routed client" % mname, n_ok, 1)
-        # dispatch loop
+        # dispatch loop: evaluated semantically
         okd = isinstance(disp.iter, ast.Call) and isinstance(disp.iter.func, ast.Attribute) and disp.iter.func.attr == "items" and isinstance(disp.iter.func.value, ast.Name) and disp.iter.func.value.id == bvar and isinstance(disp.target, ast.Tuple) and len(disp.target.elts) == 2
         r3.expect(okd, "%s: dispatch iterates %s.items()" % (mname, bvar), "HashClient.%s:dispatch-iterable" % mname, "the dispatch loop of %s does not iterate every (server, batch) of the batch map" % mname, fn=f, node=disp)
-        if okd:
-            svar, batchvar = [e.id for e in disp.target.elts]
-            lk = [n for n in ast.walk(disp) if isinstance(n, ast.Assign) and isinstance(n.value, ast.Subscript) and is_self_attr(n.value.value, "clients")]
-            okl = len(lk) == 1 and isinstance(lk[0].value.slice, ast.Call) and call_name(lk[0].value.slice) == "self._make_client_key" and len(lk[0].value.slice.args) == 1 and isinstance(lk[0].value.slice.args[0], ast.Name) and lk[0].value.slice.args[0].id == svar
-            r3.expect(okl, "%s: client = self.clients[self._make_client_key(%s)]" % (mname, svar), "HashClient.%s:dispatch-client" % mname, "the dispatch loop of %s does not take the client registered under the batch's own server name" % mname, fn=f, node=disp)
-            cvar = lk[0].targets[0].id if okl and isinstance(lk[0].targets[0], ast.Name) else None
-            runs = [c for c in ast.walk(disp) if isinstance(c, ast.Call) and call_name(c) in ("self._safely_run_set_many", "self._safely_run_func")]
-            okr = len(runs) == 1 and cvar is not None and isinstance(runs[0].args[0], ast.Name) and runs[0].args[0].id == cvar
-            batch_passed = False
-            if okr:
+        if not okd:
+            continue
+        nested = [n for n in ast.walk(disp) if isinstance(n, (ast.For, ast.While)) and n is not disp]
+        slicing_ok = False
+        if nested:
+            batchvar = disp.target.elts[1].id if isinstance(disp.target.elts[1], ast.Name) else None
+            nl = nested[0]
+            okn = len(nested) == 1 and isinstance(nl, ast.For) and isinstance(nl.target, ast.Name) and isinstance(nl.iter, ast.Call) and call_name(nl.iter) == "range" and len(nl.iter.args) == 3 and isinstance(nl.iter.args[0], ast.Constant) and nl.iter.args[0].value == 0 and isinstance(nl.iter.args[1], ast.Call) and call_name(nl.iter.args[1]) == "len" and isinstance(nl.iter.args[1].args[0], ast.Name) and nl.iter.args[1].args[0].id == batchvar
+            step = node_src(nl.iter.args[2]) if okn else None
+            sl = [x for x in ast.walk(nl) if isinstance(x, ast.Subscript) and isinstance(x.value, ast.Name) and x.value.id == batchvar and isinstance(x.slice, ast.Slice)] if okn else []
+            slicing_ok = bool(okn and len(sl) == 1 and isinstance(sl[0].slice.lower, ast.Name) and sl[0].slice.lower.id == nl.target.id and isinstance(sl[0].slice.upper, ast.BinOp) and isinstance(sl[0].slice.upper.op, ast.Add) and node_src(sl[0].slice.upper.left) == nl.target.id and node_src(sl[0].slice.upper.right) == step)
+            r3.expect(slicing_ok, "%s: the batch is sent in consecutive slices that partition it" % mname, "HashClient.%s:dispatch-nested-loop" % mname, "the dispatch loop of %s contains another loop that is not the slicing idiom `for i in range(0, len(batch), N): batch[i:i+N]`: keys of a batch may be sent twice or not at all" % mname, fn=f, node=nl)
+        va = [p.name for p in f.params if p.kind == "vararg"]
+        rets = sorted([r_ for r_ in walk_no_nested(f.node) if isinstance(r_, ast.Return) and isinstance(r_.value, ast.Name)], key=lambda r_: r_.lineno)
+        acc_name = rets[-1].value.id if rets else None
+        for gets in ((True, False) if not items_mode else (None,)):
+            ddom = DispatchDomain(prog, f)
+            di = Interp(ddom, f.node, prog)
+            env = {va[0]: StarArgs(va[0])} if va else {}
+            if gets is not None and f.param("gets") is not None:
+                env["gets"] = Truthiness(gets)
+            tg, _ = di.assign(disp.target, TupleV((Sym("srv"), Sym("batch"))), Env(env), Ctx(f.node))
+            douts = di.block(disp.body, [(s_, ()) for s_ in tg], Ctx(f.node))
+            ends = douts.of("norm") + douts.of("cont")
+            if not ends or douts.of("brk") or douts.of("ret") or douts.of("exc"):
+                r3.fail("HashClient.%s:dispatch-leaves-early" % mname, "an iteration of the dispatch loop of %s can end early (break/return/raise): later batches are not sent" % mname, fn=f, node=disp)
+            for s_, v_, t_ in ends:
+                runs = s_.get("runs", ())
+                merges = s_.get("merges", ())
+                client = ("client-of-key", ("node-name-of", Sym("srv")))
+                star = ("STAR", va[0]) if va else None
                 if items_mode:
-                    batch_passed = len(runs[0].args) > 1 and isinstance(runs[0].args[1], ast.Name) and runs[0].args[1].id == batchvar
+                    want = ("self._safely_run_set_many", tuple(x for x in (client, Sym("batch"), star) if x is not None))
                 else:
-                    ins = [c for c in ast.walk(disp) if isinstance(c, ast.Call) and isinstance(c.func, ast.Attribute) and c.func.attr == "insert" and len(c.args) == 2 and ((isinstance(c.args[1], ast.Name) and c.args[1].id == batchvar) or (isinstance(c.args[1], ast.Subscript) and isinstance(c.args[1].value, ast.Name) and c.args[1].value.id == batchvar and isinstance(c.args[1].slice, ast.Slice))) and isinstance(c.args[0], ast.Constant) and c.args[0].value == 0]
-                    star = [a for a in runs[0].args if isinstance(a, ast.Starred)]
-                    batch_passed = len(ins) == 1 and len(star) == 1 and isinstance(ins[0].func.value, ast.Name) and isinstance(star[0].value, ast.Name) and star[0].value.id == ins[0].func.value.id
-                    gf = [n for n in ast.walk(disp) if isinstance(n, ast.Assign) and isinstance(n.value, ast.Attribute) and isinstance(n.value.value, ast.Name) and n.value.value.id == cvar]
-                    names = sorted(n.value.attr for n in gf)
-                    r3.expect(names == ["get_many", "gets_many"], "get_many dispatches client.get_many / client.gets_many", "HashClient.get_many:dispatch-method", "the dispatch of get_many uses %s on the client" % names, fn=f, node=disp)
-            r3.expect(okr and batch_passed, "%s: the batch is passed unmodified to the safe runner with that client" % mname, "HashClient.%s:dispatch-batch" % mname, "the dispatch loop of %s does not pass the server's own batch, unmodified, to the runner together with that server's client" % mname, fn=f, node=disp)
-            nested = [n for n in ast.walk(disp) if isinstance(n, (ast.For, ast.While)) and n is not disp]
-            sliced = None
-            if nested:
-                # accepted idiom: the batch is sent in consecutive slices  for i in range(0, len(B), N): ... B[i : i + N]
-                nl = nested[0]
-                okn = len(nested) == 1 and isinstance(nl, ast.For) and isinstance(nl.target, ast.Name) and isinstance(nl.iter, ast.Call) and call_name(nl.iter) == "range" and len(nl.iter.args) == 3 and isinstance(nl.iter.args[0], ast.Constant) and nl.iter.args[0].value == 0 and isinstance(nl.iter.args[1], ast.Call) and call_name(nl.iter.args[1]) == "len" and isinstance(nl.iter.args[1].args[0], ast.Name) and nl.iter.args[1].args[0].id == batchvar
-                step = node_src(nl.iter.args[2]) if okn else None
-                sl = [x for x in ast.walk(nl) if isinstance(x, ast.Subscript) and isinstance(x.value, ast.Name) and x.value.id == batchvar and isinstance(x.slice, ast.Slice)] if okn else []
-                oks = okn and len(sl) == 1 and isinstance(sl[0].slice.lower, ast.Name) and sl[0].slice.lower.id == nl.target.id and isinstance(sl[0].slice.upper, ast.BinOp) and isinstance(sl[0].slice.upper.op, ast.Add) and node_src(sl[0].slice.upper.left) == nl.target.id and node_src(sl[0].slice.upper.right) == step
-                r3.expect(bool(oks), "%s: the batch is sent in consecutive slices that partition it" % mname, "HashClient.%s:dispatch-nested-loop" % mname, "the dispatch loop of %s contains another loop that is not the slicing idiom `for i in range(0, len(batch), N): batch[i:i+N]`: keys of a batch may be sent twice or not at all" % mname, fn=f, node=nl)
-                if oks:
-                    sliced = (nl, sl[0])
-            # merge
-            if items_mode:
-                acc = [n for n in ast.walk(disp) if isinstance(n, ast.AugAssign) and isinstance(n.op, ast.Add) and n.value is runs[0]] if okr else []
-                rets = sorted([r for r in walk_no_nested(f.node) if isinstance(r, ast.Return)], key=lambda r: r.lineno)
-                okm = len(acc) == 1 and rets and isinstance(rets[-1].value, ast.Name) and isinstance(acc[0].target, ast.Name) and rets[-1].value.id == acc[0].target.id
-                r4.expect(okm, "set_many: failed += runner(...); return failed", "HashClient.set_many:merge", "set_many does not concatenate the failed keys of every batch into what it returns", fn=f, node=disp)
-            else:
-                upd = [c for c in ast.walk(disp) if isinstance(c, ast.Call) and isinstance(c.func, ast.Attribute) and c.func.attr == "update" and isinstance(c.func.value, ast.Name)]
-                rets = sorted([r for r in walk_no_nested(f.node) if isinstance(r, ast.Return)], key=lambda r: r.lineno)
-                okm = len(upd) == 1 and rets and isinstance(rets[-1].value, ast.Name) and rets[-1].value.id == upd[0].func.value.id
-                if okm and okr:
-                    a = upd[0].args[0]
-                    res_var = getattr(runs[0], "_parent", None)
-                    okm = isinstance(a, ast.Name) and isinstance(res_var, ast.Assign) and isinstance(res_var.targets[0], ast.Name) and res_var.targets[0].id == a.id
-                    # not under a condition, and in the same (innermost) loop as the call whose answer it merges
-                    inner_of_run = next((a_ for a_ in _ancestors(runs[0]) if isinstance(a_, (ast.For, ast.While))), None)
-                    inner_of_upd = next((a_ for a_ in _ancestors(upd[0]) if isinstance(a_, (ast.For, ast.While))), None)
-                    if inner_of_run is not inner_of_upd:
-                        okm = False
-                    for anc in _ancestors(upd[0]):
-                        if anc is disp:
-                            break
-                        if isinstance(anc, (ast.If, ast.Try)):
-                            okm = False
-                r4.expect(okm, "get_many: end.update(result) on every batch; return end", "HashClient.get_many:merge", "get_many does not merge every batch's answer into the dict it returns", fn=f, node=disp)
+                    meth = "gets_many" if gets else "get_many"
+                    payload = ("slice-of", Sym("batch")) if (nested and slicing_ok) else Sym("batch")
+                    want = ("self._safely_run_func", tuple(x for x in (client, BoundCall(client, Const(meth)), TOP, payload, star) if x is not None))
+                n_want = 2 if (nested and slicing_ok) else 1
+                okrun = len(runs) == n_want and all(r_[0] == want[0] and len(r_[1]) == len(want[1]) and all(w is TOP or w == g for w, g in zip(want[1], r_[1])) for r_ in runs)
+                r3.expect(okrun, "%s%s: one runner call with the batch's own client, method and batch" % (mname, "" if gets is None else "(gets=%s)" % gets), "HashClient.%s:dispatch-batch" % mname, "an iteration of the dispatch loop of %s%s calls the safe runner as %s; expected one call with (the client registered under the batch's own server name%s, the server's own batch unmodified%s, *args)" % (mname, "" if gets is None else " (gets=%s)" % gets, [(n_, [_d(x) for x in fl]) for n_, fl in runs], "" if items_mode else ", that client's %s" % ("gets_many" if gets else "get_many"), " or its consecutive slices" if nested else ""), fn=f, node=disp)
+                okm = len(merges) == len(runs) and all(m_[0] == acc_name for m_ in merges) and [m_[1] for m_ in merges] == [ResultOf(i_ + 1) for i_ in range(len(runs))]
+                rule_m = r4
+                if items_mode:
+                    rule_m.expect(okm, "set_many: the runner's failed keys are added to the list that is returned", "HashClient.set_many:merge", "set_many does not add the failed keys of every batch to the list it returns (merges: %s, returned: %s)" % (merges, acc_name), fn=f, node=disp)
+                else:
+                    rule_m.expect(okm, "get_many%s: every answer is merged into the dict that is returned" % ("" if gets is None else "(gets=%s)" % gets), "HashClient.get_many:merge", "get_many does not merge every batch's (or slice's) answer into the dict it returns (merges: %s, returned: %s)" % ([(m_[0], _d(m_[1])) for m_ in merges], acc_name), fn=f, node=disp)
     dm = prog.method(hc, "delete_many")
     loops = [n for n in walk_no_nested(dm.node) if isinstance(n, ast.For)]
     okdm = len(loops) == 1 and isinstance(loops[0].iter, ast.Name) and loops[0].iter.id == dm.pos_params()[0].name
